@@ -1139,8 +1139,17 @@ def items_functions(tier):
     {full, partial credit}; MatrixGrader for the array-only functions and array shapes."""
     for f in SCALAR_FUNCS + sorted(MATRIX_Z):
         matrix = f in MATRIX_Z
-        for mode in ('blacklist', 'whitelist-none', 'whitelist'):
-            if mode == 'blacklist':
+        for mode in ('blacklist', 'whitelist-none', 'whitelist', 'blacklist-redefined'):
+            extra = {}
+            if mode == 'blacklist-redefined':
+                # the author redefines a default function for the answers (degrees-mode sin ...) AND blacklists it for
+                # students: still not permitted (a seeded change added the user functions after subtracting the blacklist)
+                if f not in ('sin', 'cos', 'sqrt', 'exp', 'abs', 'ln', 'arctan', 'sinh'):
+                    continue
+                restr = {'blacklist': [f]}
+                extra = {'user_functions': {f: {'$fn': 'inc'}}, 'suppress_warnings': True}
+                permitted = [x for x in SCALAR_FUNCS if x != f]
+            elif mode == 'blacklist':
                 restr = {'blacklist': [f]}
                 permitted = [x for x in SCALAR_FUNCS if x != f]
             elif mode == 'whitelist-none':
@@ -1160,11 +1169,13 @@ def items_functions(tier):
                 Z = MATRIX_Z[f][0] if matrix else fcall(f)
                 for partial in (False, True):
                     cls = 'MatrixGrader' if (matrix or arrays) else 'FormulaGrader'
-                    kw = {'variables': GRID_VARS, 'answers': grid_answers(partial)}
+                    kw = dict({'variables': GRID_VARS, 'answers': grid_answers(partial)}, **extra)
                     if cls == 'MatrixGrader':
                         kw['max_array_dim'] = 2
                     tags = shape_tags(shape) + (['matrix-array-entry'] if arrays else [])
-                    yield {'clause': mode, 'seed': 11, 'offender': f + '(', 'shape': shape, 'tags': tags,
+                    if extra:
+                        tags = tags + ['blacklisted-function-redefined-by-author']
+                    yield {'clause': mode.replace('-redefined', ''), 'seed': 11, 'offender': f + '(', 'shape': shape, 'tags': tags,
                            'g': {'$grader': cls, 'kw': dict(kw, **restr)}, 'gt': {'$grader': cls, 'kw': kw},
                            'honest': GRID_H, 'cheat': apply_shape(shape, GRID_H, Z, g_), 'slot': None,
                            'hgrade': 0.5 if partial else 1, 'collide': None, 'notes': ['grid/functions']}
